@@ -152,7 +152,15 @@ func perPublisher(prefix string, pi int, lv *schedfx.LogView, f *final, lastAnno
 }
 
 // ---- S1 / S2: burst of announcements to one publisher
-func burst(name string, failBlock int) *sched.Scenario {
+func burst(name string, failBlock int) *sched.Scenario { return burstOf(name, failBlock, []int{1, 2, 3}) }
+
+// burstOf: one thread announces the given chain positions of one publisher in
+// turn. Position 0 is the advertisement that is already the latest synced one
+// (an indexer that restarts, or a publisher that re-announces its head, sends
+// exactly that), which must neither produce a sync nor keep later
+// announcements from being handled.
+func burstOf(name string, failBlock int, heads []int) *sched.Scenario {
+	last := heads[len(heads)-1]
 	return &sched.Scenario{
 		Name: name,
 		Setup: func(e *sched.Exec) ([]sched.Thread, func()) {
@@ -162,7 +170,7 @@ func burst(name string, failBlock int) *sched.Scenario {
 			}
 			p, ch := w.Pubs[0], w.Chains[0]
 			threads := []sched.Thread{{Name: "A", Fn: func() {
-				for h := 1; h <= 3; h++ {
+				for _, h := range heads {
 					e.Log("A announce pub0[%d]", h)
 					if err := w.Sub.Announce(context.Background(), ch.Cids[h], p.AddrInfo()); err != nil {
 						e.Log("A announce-error %v", err)
@@ -178,7 +186,7 @@ func burst(name string, failBlock int) *sched.Scenario {
 				return out
 			}
 			lv := schedfx.ParseLog(e.Obs())
-			out = append(out, perPublisher(name, 0, lv, f, 3, false)...)
+			out = append(out, perPublisher(name, 0, lv, f, last, false)...)
 			if failBlock < 0 {
 				for _, ev := range f.events {
 					if strings.HasSuffix(ev, " err") {
@@ -374,7 +382,7 @@ func TestCheck(t *testing.T) {
 	}()
 	thorough := vp.Thorough()
 	bound := 2
-	scs := []*sched.Scenario{burst("S1-burst", -1), multi(2, 0), multi(2, 1), mixed(), scoped()}
+	scs := []*sched.Scenario{burstOf("S6-reannounce-synced-head-then-new", -1, []int{0, 1, 2}), burst("S1-burst", -1), multi(2, 0), multi(2, 1), mixed(), scoped()}
 	if thorough {
 		scs = append(scs, burst("S2-burst-failing-request", 2), multi(2, 2), multi(3, 1), multi(3, 2))
 	}
